@@ -744,7 +744,9 @@ def gen_a(r, tier):
 
 
 def gen(r, tier):
-    w = r.weighted([(35, "A"), (40, "Bs"), (25, "Bc")])
+    w = r.weighted([(33, "A"), (38, "Bs"), (23, "Bc"), (6, "Br")])
+    if w == "Br":
+        return gen_br(r)
     if w == "A":
         return gen_a(r, tier)
     if w == "Bs":
@@ -869,6 +871,16 @@ def systematic(tier):
     base = {"w": "A", "nclients": 1, "ops": ops, "token0": 0, "noshutdown": True}
     out += cut_scenarios(dict(base, stream_len=n_c2s), "c2s", n_c2s, "quick" if tier == "quick" else tier, 3000)
     out += cut_scenarios(dict(base, stream_len=n_s2c), "s2c", n_s2c, "quick" if tier == "quick" else tier, 3001)
+    # successive connections of one client to one address: how the second one starts, after any end of the first
+    for end in ("close", "release", "abort", "reset"):
+        for second in ("first", "none", "late"):
+            for opts in ([], [[2, "100000"], [4, ""]]):
+                for ch in (WHOLE, {"mode": "bytes"}):
+                    out.append({"w": "Br", "gap": 2.0, "conns": [{"csm": "first", "csm_opts": opts, "end": end},
+                                                                  {"csm": second, "csm_opts": opts, "end": "close"},
+                                                                  {"csm": "first", "csm_opts": [], "end": "close"}],
+                                "reqs": [{"tag": k, "code": rc.GET, "len": 0, "seed": k + 1, "opts": []} for k in range(3)],
+                                "chunk": {"c2s": WHOLE, "s2c": ch}})
     return out
 
 
@@ -930,6 +942,15 @@ def shrink(scn):
         c = dict(scn)
         c["fault"] = None
         yield c
+    if scn.get("w") == "Br":
+        n = len(scn["conns"])
+        if n > 2:
+            yield dict(scn, conns=scn["conns"][:-1], reqs=scn["reqs"][:-1])
+            yield dict(scn, conns=scn["conns"][1:], reqs=[dict(q, tag=k) for k, q in enumerate(scn["reqs"][1:])])
+        for j, cn in enumerate(scn["conns"]):
+            if cn.get("csm_opts"):
+                yield dict(scn, conns=scn["conns"][:j] + [dict(cn, csm_opts=[])] + scn["conns"][j + 1:])
+        return
     if scn.get("w") == "Bc":
         if len(scn["reqs"]) > 1:
             c = dict(scn)
@@ -1513,6 +1534,149 @@ def run_bc(sim, scn, chunk, wid, nworld):
     return {"obs": obs, "sn": sn, "kinds": [f["k"] for s_ in steps for f in s_["frames"]], "end": O.end}
 
 
+# ------------------------------------------------------------------ workload Br: a real client over successive connections
+
+
+def gen_br(r):
+    n = r.randint(2, 4)
+    conns = []
+    for j in range(n):
+        conns.append({"csm": r.weighted([(6, "first"), (2, "none"), (2, "late")]) if j else r.weighted([(8, "first"), (1, "none"), (1, "late")]),
+                      "csm_opts": r.choice([[], [[2, "100000"], [4, ""]], [[2, "0480"]]]),
+                      "end": r.choice(["close", "release", "abort", "reset"])})
+    return {"w": "Br", "conns": conns, "gap": r.choice([0.5, 2.0, 30.0]),
+            "reqs": [{"tag": k, "code": r.choice([rc.GET, rc.POST]), "len": r.choice([0, 5, 13]), "seed": k + 1, "opts": []} for k in range(n)],
+            "chunk": {"c2s": WHOLE, "s2c": r.choice([WHOLE, {"mode": "bytes"}, {"mode": "fixed", "size": 3, "max_small": 100000}])}}
+
+
+def run_br(sim, scn, chunk, wid, nworld):
+    """One client context, one server address, one connection after the other: connection j serves request j and then
+    goes away (closed, released, aborted, reset); the next request opens connection j+1.  Every connection stands for
+    itself: nothing is dispatched on it before ITS peer's CSM, whatever an earlier connection to the same address did."""
+    import aiocoap
+    from aiocoap import error
+
+    loop = sim.loop
+    sn = SimStreamNet(sim, prefix=wid + ":", client_ip="fd00:%d::2" % nworld)
+    loop.streamnet = sn
+    sn.policy_for = policy_fn(chunk, None)
+    ip = "fd00:%d::1" % nworld
+    tap = []
+    outcomes = {}
+    conns = scn["conns"]
+    served = {}  # connection index -> {"tokens": [...], "answered": token or None}
+
+    def advance(p, j):
+        spec = conns[min(j, len(conns) - 1)]
+        st = served.setdefault(j, {"tokens": [], "answered": None, "resp": None})
+        frames, _rest = split_frames(p.rx)
+        for (a, b, m, err) in frames:
+            if m is None or not (1 <= m["code"] < 32) or m["token"] in st["tokens"]:
+                continue
+            st["tokens"].append(m["token"])
+            if st["answered"] is not None or not p.is_open:
+                continue
+            st["answered"] = m["token"]
+            resp = {"code": rc.CONTENT, "token": m["token"], "options": [], "payload": b"conn%d" % j}
+            st["resp"] = resp
+            out = rc.tcp_encode(resp)
+            if spec["csm"] == "late":
+                out += rc.tcp_encode({"code": rc.CSM, "token": b"", "options": [(int(n), bytes.fromhex(v)) for n, v in spec["csm_opts"]], "payload": b""})
+            p.write(out)
+            end = spec["end"]
+
+            def finish(p=p, end=end):
+                if not p.is_open:
+                    return
+                if end == "release":
+                    p.write(rc.tcp_encode({"code": rc.RELEASE, "token": b"", "options": [], "payload": b""}))
+                elif end == "abort":
+                    p.write(rc.tcp_encode({"code": rc.ABORT, "token": b"", "options": [], "payload": b"bye"}))
+                if end == "reset":
+                    p.abort()
+                else:
+                    p.close()
+            loop.after(0.1, finish)
+
+    def factory(n):
+        spec = conns[min(n, len(conns) - 1)]
+
+        def made(p, k, i, n=n, spec=spec):
+            if k == "made" and spec["csm"] == "first":
+                p.write(rc.tcp_encode({"code": rc.CSM, "token": b"", "options": [(int(a), bytes.fromhex(v)) for a, v in spec["csm_opts"]],
+                                       "payload": b""}))
+        return TcpPeer(sim, wid + ":peer%d" % n, on_data=lambda p, d, n=n: advance(p, n), on_event=made)
+
+    listener = TcpPeerListener(sim, ip, 5683, factory)
+
+    async def setup():
+        await listener.start()
+        cli = await aiocoap.Context.create_client_context(transports=["tcpclient"], loggername="coap")
+        install_tap(cli, tap, sim)
+        return cli
+
+    cli = loop.run_until_complete(setup())
+    t0 = loop.now
+    uri = "coap+tcp://[%s]" % ip
+    for k, q in enumerate(scn["reqs"]):
+        loop.at(t0 + k * scn.get("gap", 2.0), start_request, sim, cli, bc_request_msg(q), uri, outcomes, q["tag"])
+    sim.run()
+    sim.probe("successive_connections", len(sn.conns))
+    if len(sn.conns) > 1:
+        sim.probe("reconnect")
+    viol = []
+    for j, conn in enumerate(sn.conns):
+        spec = conns[min(j, len(conns) - 1)]
+        st = served.get(j, {"tokens": [], "answered": None, "resp": None})
+        frames, rest = split_frames(bytes(conn.c2s.stream))
+        out = [m for (a, b, m, e) in frames if m is not None]
+        aborted = any(m["code"] == rc.ABORT for m in out)
+        mine = [e for e in tap if e["remote"] is conn.c.get_protocol() or getattr(e["remote"], "_transport", None) is conn.c]
+        delivered = [e["m"] for e in mine if e["what"] == "resp"]
+        ident = {"connection": j, "csm": spec["csm"], "earlier_connections": [c_["csm"] for c_ in conns[:j]], "world": wid, "workload": "Br"}
+        tags = [k for k, q in enumerate(scn["reqs"]) if any(tag_of(m) == q["tag"] for m in out if 1 <= m["code"] < 32)]
+        if spec["csm"] == "first":
+            if aborted:
+                viol.append(("C15/unexpected-abort", dict(ident, diagnostic=[m["payload"][:40].decode("latin-1") for m in out if m["code"] == rc.ABORT][0])))
+            if st["resp"] is not None and not any(msg_key(m, False) == msg_key(st["resp"], False) for m in delivered):
+                viol.append(("C15/message-not-dispatched", dict(ident, missing=brief(st["resp"]))))
+            for k in tags:
+                rec = outcomes.get(scn["reqs"][k]["tag"])
+                if st["resp"] is not None and st["answered"] is not None and rec is not None and rec["outcome"] != "response" \
+                        and any(tag_of(m) == scn["reqs"][k]["tag"] and m["token"] == st["answered"] for m in out):
+                    viol.append(("C15/response-not-delivered-to-application", dict(ident, tag=k, outcome=rec["outcome"],
+                                                                                     exception=repr(rec.get("exception"))[:120])))
+        elif st["resp"] is not None:
+            # the peer answered before (or without) its CSM
+            sim.probe("csm_missing")
+            if delivered:
+                viol.append(("C15/dispatched-before-csm", dict(ident, dispatched=brief(delivered[0]))))
+            if not aborted:
+                viol.append(("C15/no-csm-no-abort", dict(ident, closed=conn.c.is_closing())))
+            elif conn.c.close_reason != "close":
+                viol.append(("C15/abort-without-close", dict(ident, close_reason=conn.c.close_reason)))
+            for k in tags:
+                rec = outcomes.get(scn["reqs"][k]["tag"])
+                if rec is not None and rec["outcome"] == "response":
+                    viol.append(("C15/response-without-source", dict(ident, tag=k, got=brief(rec["response"]))))
+                elif rec is not None and rec["outcome"] is None:
+                    viol.append(("C15/pending-request-not-failed", dict(ident, tag=k)))
+                elif rec is not None and rec["outcome"] == "error" and not isinstance(rec["exception"], error.NetworkError):
+                    viol.append(("C15/pending-request-wrong-error", dict(ident, tag=k, exception=repr(rec["exception"])[:160])))
+    for kind, detail in viol:
+        sim.violation(kind, detail)
+    if rec_twice(outcomes):
+        sim.violation("C15/request-completed-twice", {"world": wid, "workload": "Br"})
+    shutdown_ctx(sim, [cli])
+    for p in listener.peers:
+        if p.is_open:
+            p.close()
+    sim.run()
+    obs = {"n_conns": len(sn.conns), "outcomes": {str(k): v["outcome"] for k, v in sorted(outcomes.items())},
+           "aborts": [any(m is not None and m["code"] == rc.ABORT for (a, b, m, e) in split_frames(bytes(c.c2s.stream))[0]) for c in sn.conns]}
+    return {"obs": obs, "sn": sn, "kinds": ["br"], "end": "open"}
+
+
 def rec_twice(outcomes):
     return any(r["done"] > 1 for r in outcomes.values())
 
@@ -1678,7 +1842,7 @@ def is_whole(chunk):
 
 def execute(sim, scn):
     w = scn["w"]
-    runner = {"A": run_a, "Bs": run_bs, "Bc": run_bc}[w]
+    runner = {"A": run_a, "Bs": run_bs, "Bc": run_bc, "Br": run_br}[w]
     chunk = scn.get("chunk") or {}
     first = runner(sim, scn, chunk, "v", 1)
     results = [first]
